@@ -535,6 +535,30 @@ def check_comparators(ctx, prog, tag, rule="C07.V2.comparator-is-total"):
                                             {q_.key() for q_ in flow.origins(k, o_.call.args[0])} & who) for o_ in ee_[1]):
                                         guarded = True
                                 if not guarded:
+                                    # the test may be folded into a boolean first (`let foldable = !cs && a.kind() == String && ..`):
+                                    # the call is unreachable once the true side of every such test on this value is taken away
+                                    ev_edges, ev_calls = set(), set()
+                                    for sb_ in sorted(k.reachable):
+                                        if k.term(sb_)["k"] != "switch":
+                                            continue
+                                        cd_ = flow.cond_of(k, sb_)
+                                        ee_ = flow.enum_eq(k, cd_) if cd_.kind == "call" else None
+                                        if ee_ is None or ee_[0] != "String":
+                                            continue
+                                        if any(o_.kind == "call" and o_.call.name == KINDFN and (
+                                                {q_.key() for q_ in flow.origins(k, o_.call.args[0])} & who) for o_ in ee_[1]):
+                                            ev_edges |= cfg.bool_edges(k, sb_, (not cd_.call.name.endswith("::ne")) != cd_.neg)
+                                    for c2_ in k.calls():
+                                        if c2_.name.endswith("PartialEq>::eq") and c2_.dest is not None:
+                                            ee2_ = flow.enum_eq(k, flow.Cond("call", c2_.bb, call=c2_))
+                                            if ee2_ is not None and ee2_[0] == "String" and any(
+                                                    o_.kind == "call" and o_.call.name == KINDFN and (
+                                                        {q_.key() for q_ in flow.origins(k, o_.call.args[0])} & who) for o_ in ee2_[1]):
+                                                ev_calls.add(c2_.bb)
+                                    if ev_edges or ev_calls:
+                                        reach_, _ = cfg.reach_with_bool_phis(k, ev_edges, evidence_calls=ev_calls)
+                                        guarded = cc.bb not in reach_
+                                if not guarded:
                                     badc.append("the string view of a value that may be bytes (as_str without kind() == String)")
                         # a verdict that is a constant on some inputs and a real comparison on others is not
                         # transitive (`_ => Ordering::Equal` for items whose key lookup failed: such an item is
